@@ -8,3 +8,4 @@ for p in C01 C02 C03 C04 C05 C06 C07 C08 C09 C10 C11 C12 C13 C14 C15 C16 C17 C18
 done
 ./check E2E --tier $T 2>&1 | tail -1
 ./check RPC --tier $T 2>&1 | tail -1
+./check MON --tier $T 2>&1 | tail -1
